@@ -41,6 +41,8 @@ structure DState where
   cons : Std.HashMap Nat (Con × Nat) := {}
   exps : Std.HashMap Nat Exp := {}
   builds : Std.HashMap String Nat := {}
+  /-- constraint id ↦ first constraint id with the same Z3 AST (assertion lists are compared through it) -/
+  canon : Std.HashMap Nat Nat := {}
   falseId : Nat := 0
   cls : SolverClass := .Solver
   world : World := {}
@@ -140,7 +142,7 @@ def showTag : ZTag → String
 
 def letterOf (k : Nat) : String := String.singleton (Char.ofNat (65 + k % 26)) ++ (if k ≥ 26 then toString (k / 26) else "")
 
-def showWorld (w : World) : String := Id.run do
+def showWorld (canon : Std.HashMap Nat Nat) (w : World) : String := Id.run do
   let mut order : List Nat := []
   let mut parts : List String := []
   let mut i := 0
@@ -155,7 +157,7 @@ def showWorld (w : World) : String := Id.run do
   let mut k := 0
   for r in order do
     let o := w.objs.getD r {}
-    parts := parts ++ [letterOf k ++ "{" ++ s!"scopes={o.frames.length - 1};asserts=[{",".intercalate (o.asserted.map fun c => showTag c.tag)}]" ++ "}"]
+    parts := parts ++ [letterOf k ++ "{" ++ s!"scopes={o.frames.length - 1};asserts=[{",".intercalate (o.asserted.map fun c => showTag (match c.tag with | .con id => .con (canon.getD id id) | t => t))}]" ++ "}"]
     k := k + 1
   return " ".intercalate parts
 
@@ -233,16 +235,16 @@ def handleUni (d : DState) (args : List String) : DState × String :=
 def parseOptNat (s : String) : Option Nat := if s == "-" then none else s.toNat?
 
 def handleCon (d : DState) (args : List String) : DState × String :=
-  -- con <id> <vars> <isFalse> <conc> <triv> <maskhex>
+  -- con <id> <vars> <isFalse> <conc> <triv> <maskhex> <z3canon>
   match args with
-  | [id, vars, isF, conc, triv, mask] =>
+  | [id, vars, isF, conc, triv, mask, canon] =>
     let id := id.toNat?.getD 0
     let m := parseHex mask
     let triv := match triv.splitOn ":" with
       | [v, x, e] => (match v.toNat?, x.toNat?, e.toNat? with | some v, some x, some e => some (v, x, e) | _, _, _ => none)
       | _ => none
     let c := conOfMask d.uni id (parseList vars) (isF == "1") ((parseOptNat conc).map (· == 1)) triv m
-    ({ d with cons := d.cons.insert id (c, m) }, "ok")
+    ({ d with cons := d.cons.insert id (c, m), canon := d.canon.insert id (canon.toNat?.getD id) }, "ok")
   | _ => (d, "bad-con")
 
 def handleExp (d : DState) (args : List String) : DState × String :=
@@ -319,7 +321,7 @@ def handleOp (d : DState) (args : List String) : DState × String :=
         | some why => ds := ds ++ ["spec:" ++ why]
         return ds
       ({ d with world := w, added := added },
-       showOut out ++ " ;; " ++ showWorld w ++ " ;; " ++ (if diags.isEmpty then "-" else ",".intercalate diags))
+       showOut out ++ " ;; " ++ showWorld d.canon w ++ " ;; " ++ (if diags.isEmpty then "-" else ",".intercalate diags))
   | _ => (d, "bad-op")
 
 def dispatch (d : DState) (line : String) : DState × String :=
